@@ -129,7 +129,7 @@ class Sim:
         return 0 if l is None else l[1] + 1
 
 
-def gen_history(rnd, nops, p_reject=0.12, p_boundary=0.15, flush_every=None, reads=True, allow_limits=False, max_batch=4, noop_purge=True, index_limit_rejects=False, partial_batches=True):
+def gen_history(rnd, nops, p_reject=0.12, p_boundary=0.15, flush_every=None, reads=True, allow_limits=False, max_batch=4, noop_purge=True, index_limit_rejects=False, partial_batches=True, term_jump_purges=False):
     """Returns a list of op strings (without the trailing observation ops)."""
     s = Sim()
     ops = []
@@ -276,6 +276,19 @@ def gen_history(rnd, nops, p_reject=0.12, p_boundary=0.15, flush_every=None, rea
                 l = s.last()
                 u = (max(s.term, l[0] if l else 0), (l[1] if l else -1) + rnd.randint(1, 4))
                 stats["boundary"] += 1
+            elif term_jump_purges and len(s.entries) >= 3 and rnd.random() < 0.5:
+                # NOT Raft-legal, but accepted by the crate: a purge point ahead of `last` by TERM and
+                # behind it by index; `last` jumps to it and the next append lands on an index that
+                # is still in the index map (only used where no reference-log oracle is involved)
+                e = s.entries[rnd.randrange(0, len(s.entries) - 1)]
+                u = (s.entries[-1][0] + rnd.randint(1, 2), e[1])
+                s.term = max(s.term, u[0])
+                s.entries = []                       # steer: the next append follows the purge point
+                s.purged = u
+                stats["purges"] += 1
+                ops.append("P %d %d" % u)
+                obs()
+                continue
             elif s.purged is not None and s.purged[0] > 0 and rnd.random() < 0.3:
                 # a purge point with a LOWER term but a higher index than the current one (ids are
                 # compared as (term, index), purging goes by index): accepted by the crate
